@@ -608,7 +608,7 @@ func raceKey(blk string) string {
 			for i := 1; i+1 < len(lines); i += 2 {
 				if strings.Contains(lines[i+1], repoPrefix()) {
 					fn := strings.TrimSpace(lines[i])
-					if p := strings.Index(fn, "("); p > 0 {
+					if p := strings.LastIndex(fn, "("); p > 0 { // the argument list; method receivers like pkg.(*T).M keep theirs
 						fn = fn[:p]
 					}
 					if s := strings.LastIndex(fn, "/"); s >= 0 {
